@@ -3,3 +3,4 @@ import DefconModel.Drivers.Layer
 import DefconModel.Drivers.GlyphOrder
 import DefconModel.Drivers.Kern
 import DefconModel.Drivers.NameSort
+import DefconModel.Drivers.Persist
